@@ -146,7 +146,7 @@ class Exe:
                                      n=spec.get('n'), length=spec.get('len'))
                 child.meta = spec.get('meta', {})
                 v = Ptr(child, (0,), (), ct.to)
-                if spec.get('nullable'):
+                if spec.get('nullable') or gen:
                     v = v.with_(isnull=z3.Bool('isnull(%s)' % nm))
         elif isinstance(ct, TStruct):
             raise FrontEndError('init_cell of struct')
@@ -492,6 +492,8 @@ class Exe:
             sct = p.ct
             if not isinstance(sct, TStruct):
                 raise FrontEndError('member of non-struct %r' % sct)
+            if sct.is_union:
+                raise FrontEndError('member access into a union (outside the accepted subset)')
             if p.obj is RAW:
                 off = self.tu.field_offset(sct, n['name'])
                 return p.with_(idx=(p.idx[0] + (z3.BitVecVal(off, 64) if self.sem.int_mode == 'bv' else off),), ct=sct.field(n['name']))
@@ -679,6 +681,13 @@ class Exe:
     def copy_aggregate(self, dst, src, ct, st):
         if not isinstance(src, Ptr):
             raise FrontEndError('aggregate copy from non-aggregate')
+        if isinstance(ct, TStruct) and ct.is_union:
+            # a union is copied as one opaque blob (member access into unions is outside the subset)
+            bt = ct.field('$blob')
+            d2 = dst.with_(path=dst.path + ('$blob',), ct=bt)
+            s2 = src.with_(path=src.path + ('$blob',), ct=bt)
+            st.store(self._normalize(d2), st.load(self._normalize(s2)))
+            return
         if isinstance(ct, TStruct):
             for fname, ft in ct.fields:
                 d2 = dst.with_(path=dst.path + (fname,), ct=ft)
@@ -915,8 +924,33 @@ class Exe:
 
     def _ptr_retarget(self, v, to):
         """(T*)p: reinterpret pointee type; storage stays typed (component model)."""
-        if v.obj is None or v.obj is RAW:
+        if v.obj is None or v.obj is RAW or isinstance(to, (TVoid, TFn)):
             return v.with_(ct=to)
+        o = v.obj
+        if o.meta.get('untyped') and not (isinstance(to, TInt) and to.width == 8):
+            # fresh allocation returned as void*: it gets the type it is first cast to; length = bytes / sizeof(T)
+            o.meta['untyped'] = False
+            o.ct = to
+            b = o.meta.get('bytes')
+            if b is not None:
+                sz = self.tu.sizeof(to)
+                o.length = (b / sz) if self.sem.int_mode != 'bv' else z3.UDiv(b, z3.BitVecVal(sz, 64))
+            return v.with_(ct=to)
+        byteobj = isinstance(o.ct, TInt) and o.ct.width == 8 and not v.path
+        if byteobj and not (isinstance(to, TInt) and to.width == 8):
+            # a byte buffer (the arena) viewed at type T: a separate typed component, memoised per (buffer, T).
+            # Assumption (listed): regions of the buffer used at different types are disjoint (proved for the
+            # allocator under C19).
+            ci = _conc_idx(v.idx)
+            if ci is None or any(ci):
+                raise FrontEndError('typed view of a byte buffer at a non-zero / symbolic offset')
+            key = (o.id, to.cstr())
+            if key not in self.children:
+                c = self.new_obj('%s as %s[]' % (o.name, to.cstr()), to, n=None)
+                c.meta['view_of_pre'] = True
+                self.children[key] = c
+                self.assumed.add('byte buffer %s viewed as %s[]: typed regions of the buffer do not overlap' % (o.name, to.cstr()))
+            return Ptr(self.children[key], (0,), (), to, isnull=v.isnull)
         return v.with_(ct=to)
 
     def _ev_UnaryOperator(self, n, st):
